@@ -189,6 +189,7 @@ structure SrchConst (e : Env F) (s : State F) : Prop where
   gx : s.ienv "goal_px" = e.goal.2
   sy : s.ienv "start_py" = e.start.1
   sx : s.ienv "start_px" = e.start.2
+  start_in : inside e.h e.w e.start = true
 
 theorem SrchConst.of_frame {e : Env F} {s r : State F} (hc : SrchConst e s) (hshp : r.shp = s.shp)
     (hd : r.fa "data" = s.fa "data") (hb : r.fa "barriers" = s.fa "barriers")
@@ -201,7 +202,8 @@ theorem SrchConst.of_frame {e : Env F} {s r : State F} (hc : SrchConst e s) (hsh
    by rw [hshp]; exact hc.s_g, by rw [hshp]; exact hc.s_f, by rw [hshp]; exact hc.s_py,
    by rw [hshp]; exact hc.s_px, by rw [hshp]; exact hc.s_path, by rw [hn1, hn2]; exact hc.nbrs,
    by rw [hd, hb]; exact hc.cross, by rw [h1]; exact hc.height, by rw [h2]; exact hc.width,
-   by rw [h3]; exact hc.gy, by rw [h4]; exact hc.gx, by rw [h5]; exact hc.sy, by rw [h6]; exact hc.sx⟩
+   by rw [h3]; exact hc.gy, by rw [h4]; exact hc.gx, by rw [h5]; exact hc.sy, by rw [h6]; exact hc.sx,
+   hc.start_in⟩
 
 /-- the six work arrays of the search represent the state `mst` of the hand model (on the cells of the raster) -/
 structure SrchAbs (e : Env F) (s : State F) (mst : AStar.St F) : Prop where
@@ -218,12 +220,14 @@ structure SrchAbs (e : Env F) (s : State F) (mst : AStar.St F) : Prop where
   f : ∀ c, inside e.h e.w c = true → mst.f c = (s.fa "cost").getD (cidx e.w c) Fl.nan
   parent : ∀ c, inside e.h e.w c = true →
     mst.parent c = parentOf (s.ia "parent_ys") (s.ia "parent_xs") e.w c
+  /-- the start cell always has a back pointer (it is its own parent from the beginning) -/
+  pstart : parentOf (s.ia "parent_ys") (s.ia "parent_xs") e.w e.start ≠ none
 
 theorem SrchAbs.of_eq {e : Env F} {s r : State F} {mst : AStar.St F} (ha : SrchAbs e s mst)
     (hia : r.ia = s.ia) (hfa : r.fa = s.fa) : SrchAbs e r mst := by
   constructor <;> (try rw [hia]) <;> (try rw [hfa])
   exacts [ha.l_open, ha.l_closed, ha.l_g, ha.l_f, ha.l_py, ha.l_px, ha.open01, ha.isOpen, ha.isClosed, ha.g, ha.f,
-    ha.parent]
+    ha.parent, ha.pstart]
 
 theorem SrchAbs.mcAbs {e : Env F} {s : State F} {mst : AStar.St F} (hc : SrchConst e s) (ha : SrchAbs e s mst) :
     McAbs e mst s :=
@@ -255,7 +259,7 @@ theorem SrchAbs.closed {e : Env F} {s r : State F} {mst : AStar.St F} (ha : Srch
   refine ⟨by rw [h1]; simp [ha.l_open], by rw [h2]; simp [ha.l_closed], by rw [h5]; exact ha.l_g,
     by rw [h6]; exact ha.l_f, by rw [h3]; exact ha.l_py, by rw [h4]; exact ha.l_px,
     by rw [h1]; exact mem_set_01 _ _ _ (Or.inl rfl) ha.open01, ?_, ?_, by rw [h5]; exact ha.g,
-    by rw [h6]; exact ha.f, by rw [h3, h4]; exact ha.parent⟩
+    by rw [h6]; exact ha.f, by rw [h3, h4]; exact ha.parent, by rw [h3, h4]; exact ha.pstart⟩
   · intro c hc
     rw [h1, getD_set_cell e.h e.w _ ha.l_open u c hu hc]
     simp only [close, upd]
@@ -276,7 +280,7 @@ def relaxedSt (mst : AStar.St F) (u v : Cell) (d fv : F) : AStar.St F :=
 
 /-- the five stores at the end of the neighbour loop are the model's update -/
 theorem SrchAbs.relaxed {e : Env F} {s r : State F} {mst : AStar.St F} (ha : SrchAbs e s mst) (u v : Cell)
-    (hu : inside e.h e.w u = true) (hv : inside e.h e.w v = true) (d fv : F)
+    (hu : inside e.h e.w u = true) (hv : inside e.h e.w v = true) (hstart : inside e.h e.w e.start = true) (d fv : F)
     (h1 : r.ia "is_open" = (s.ia "is_open").set (cidx e.w v) 1)
     (h2 : r.ia "is_closed" = s.ia "is_closed")
     (h3 : r.ia "parent_ys" = (s.ia "parent_ys").set (cidx e.w v) u.1)
@@ -287,7 +291,7 @@ theorem SrchAbs.relaxed {e : Env F} {s r : State F} {mst : AStar.St F} (ha : Src
   have hu' := (inside_iff e.h e.w u).1 hu
   refine ⟨by rw [h1]; simp [ha.l_open], by rw [h2]; exact ha.l_closed, by rw [h5]; simp [ha.l_g],
     by rw [h6]; simp [ha.l_f], by rw [h3]; simp [ha.l_py], by rw [h4]; simp [ha.l_px],
-    by rw [h1]; exact mem_set_01 _ _ _ (Or.inr rfl) ha.open01, ?_, by rw [h2]; exact ha.isClosed, ?_, ?_, ?_⟩
+    by rw [h1]; exact mem_set_01 _ _ _ (Or.inr rfl) ha.open01, ?_, by rw [h2]; exact ha.isClosed, ?_, ?_, ?_, ?_⟩
   · intro c hc
     rw [h1, getD_set_cell e.h e.w _ ha.l_open v c hv hc]
     simp only [relaxedSt, upd]
@@ -316,6 +320,16 @@ theorem SrchAbs.relaxed {e : Env F} {s r : State F} {mst : AStar.St F} (ha : Src
       have h2 : u.2 ≠ -1 := by omega
       simp [h1, h2]
     · have := ha.parent c hc
+      unfold parentOf at this
+      exact this
+  · rw [h3, h4]
+    unfold parentOf
+    rw [getD_set_cell e.h e.w _ ha.l_py v _ hv hstart, getD_set_cell e.h e.w _ ha.l_px v _ hv hstart]
+    split
+    · have h1 : u.1 ≠ -1 := by omega
+      have h2 : u.2 ≠ -1 := by omega
+      simp [h1, h2]
+    · have := ha.pstart
       unfold parentOf at this
       exact this
 
